@@ -612,8 +612,15 @@ impl FixtureDatabase {
             return None;
         };
 
+        // Import statements bind names in order, so the last one that brings the name in wins.
+        // Modules listed in `pytest_plugins` are plugins of their own: they rank below
+        // everything the file binds itself, and a later one overrides an earlier one.
         let mut targets: Vec<PathBuf> = Vec::new();
-        for import in self.extract_fixture_imports(&module.body, &canonical_path, &line_index) {
+        for import in self
+            .extract_fixture_imports(&module.body, &canonical_path, &line_index)
+            .iter()
+            .rev()
+        {
             if import.is_star_import || import.imported_names.iter().any(|n| n == fixture_name) {
                 if let Some(resolved) =
                     self.resolve_module_to_file(&import.module_path, &canonical_path)
@@ -622,8 +629,8 @@ impl FixtureDatabase {
                 }
             }
         }
-        for module_path in self.extract_pytest_plugins(&module.body) {
-            if let Some(resolved) = self.resolve_module_to_file(&module_path, &canonical_path) {
+        for module_path in self.extract_pytest_plugins(&module.body).iter().rev() {
+            if let Some(resolved) = self.resolve_module_to_file(module_path, &canonical_path) {
                 targets.push(self.get_canonical_path(resolved));
             }
         }
